@@ -403,6 +403,15 @@ var accessors = []acc{
 			return fmt.Sprintf("%q", l.Labels)
 		},
 		gen: func(r *rand.Rand, n int) []byte {
+			if n > 64 { // long values: names at the length limit, pointers to far offsets (up to 16383), many pointers
+				switch r.IntN(3) {
+				case 0:
+					return reflabel.Boundary(r)
+				case 1:
+					return reflabel.FarPointer(r)
+				}
+				return reflabel.ManyPointers(r)
+			}
 			var names []string
 			for k := 0; k < 1+r.IntN(3); k++ {
 				var ls []string
@@ -502,9 +511,19 @@ var accessors = []acc{
 		},
 		gen: func(r *rand.Rand, n int) []byte {
 			var b []byte
+			long := n > 64
+			ents := [][2]byte{{byte(r.UintN(256)), byte(r.UintN(256))}, {0, 9}}
 			for len(b) < n {
 				l := r.IntN(6)
-				b = append(b, 0, 0, byte(r.UintN(256)), byte(r.UintN(256)), byte(l))
+				e := [2]byte{byte(r.UintN(256)), byte(r.UintN(256))}
+				if long { // long values: data of ordinary sizes and of the 254/255-octet maximum, few enterprises
+					l = 1 + r.IntN(70)
+					if r.IntN(4) == 0 {
+						l = 254 + r.IntN(2)
+					}
+					e = ents[r.IntN(2)]
+				}
+				b = append(b, 0, 0, e[0], e[1], byte(l))
 				for i := 0; i < l; i++ {
 					b = append(b, byte(r.UintN(256)))
 				}
@@ -824,7 +843,11 @@ func TestCheck(t *testing.T) {
 			}
 			k++
 			rng := r.Rand("c17.long."+a.name, li)
-			for j := 0; j < r.Pick(6, 200); j++ {
+			nj := r.Pick(6, 200)
+			if a.gen != nil { // structured values: more of them
+				nj = r.Pick(60, 1000)
+			}
+			for j := 0; j < nj; j++ {
 				v := fills(rng, n, 3+j%2)
 				if a.gen != nil && j%2 == 0 {
 					v = a.gen(rng, n)
